@@ -169,6 +169,14 @@ fn prefill(rig: &mut Rig, rq: &Rq, r: &Request, block: Option<&Vec<u8>>) {
 }
 
 pub fn compare_memory(rig: &Rig, what: &str) -> Result<(), String> {
+    // the ROM is not writable by a load aimed at (or wrapping into) 0x0000-0x3FFF
+    for a in 0x0000..0x4000u16 {
+        let got = rig.e.peek(a);
+        let want = rig.m.read(a);
+        if got != want {
+            return Err(format!("{}: ROM address {:#06x} now reads {:#04x}, the ROM image has {:#04x} — a load must not alter the ROM", what, a, got, want));
+        }
+    }
     for a in 0x4000..=0xFFFFu16 {
         if excluded(a) {
             continue;
